@@ -1339,7 +1339,15 @@ class Gen:
                 (mt, mn) = self.fresh_key()
                 ins = [self.single_in(mt, mn)]
             outs = [u(elem), u(0)] if r.random() < 0.7 or how == "err" else [u(elem)]
-            if r.random() < 0.25:
+            c2 = r.random()
+            if c2 < 0.2:
+                # the feeder gives the group two or three members at once (several fields, one of them in a nested result object)
+                fs = [self.out_field(), self.field("M", u(elem), {"group": g}), self.field("N", u(elem), {"group": g})]
+                if r.random() < 0.4:
+                    fs.append(self.field("O", self.st([self.out_field(), self.field("P", u(elem), {"group": g})])))
+                outs = [self.st(fs)] + outs[1:]
+                opts = {"name": "", "group": "", "as": [], "opts": []}
+            elif c2 < 0.4:
                 outs = [self.st([self.out_field(), self.field("M", u(elem), {"group": g}), self.field("X", u(r.choice(PT[4:])), {"name": "v%d" % j})])] + outs[1:]
                 opts = {"name": "", "group": "", "as": [], "opts": []}
             else:
